@@ -213,6 +213,7 @@ class Optimizer:
                 callback(self)
                 self.timer.start()
         self.timer.stop()
-        self.itnum += 1
+        if self.maxiter > 0:
+            self.itnum += 1
         self.itstat_object.end()
         return self.minimizer()
